@@ -11,7 +11,8 @@ import (
 	"verif/engine/sym"
 )
 
-func writeEvidence(verif string, h *Harness, tier string, seed int, m *sym.Machine, results []*sym.EntryResult, wall float64, inconclusive []string, validated int, extra map[string]interface{}) {
+func writeEvidence(s *session, results []*sym.EntryResult, wall float64, inconclusive []string, validated int, extra map[string]interface{}) {
+	verif, h, tier, seed, m := s.verif, &s.h, s.tier, s.seed, s.m
 	cov := map[string]interface{}{}
 	states, transitions, nviol := 0, 0, 0
 	var samples []interface{}
